@@ -282,9 +282,29 @@ func ReturnsNilError(ret *ssa.Return) bool {
 	if len(ret.Results) == 0 {
 		return true
 	}
-	last := ret.Results[len(ret.Results)-1]
+	last := unspillResult(ret, ret.Results[len(ret.Results)-1])
 	k, ok := last.(*ssa.Const)
 	return ok && k.IsNil()
+}
+
+// unspillResult undoes go/ssa's result spilling in functions with defers: the
+// return site is "*r = v; rundefers; t = *r; return t" — give back v.
+func unspillResult(ret *ssa.Return, v ssa.Value) ssa.Value {
+	ld, ok := v.(*ssa.UnOp)
+	if !ok || ld.Op != token.MUL {
+		return v
+	}
+	al, ok := ld.X.(*ssa.Alloc)
+	if !ok {
+		return v
+	}
+	instrs := ret.Block().Instrs
+	for i := len(instrs) - 1; i >= 0; i-- {
+		if st, ok := instrs[i].(*ssa.Store); ok && st.Addr == al {
+			return st.Val
+		}
+	}
+	return v
 }
 
 // FlowsFrom reports whether v is derived from src through value-preserving
